@@ -2,11 +2,13 @@
 //! and reports every deviation, attributed to the property it violates.
 //!
 //! usage: replay_cgt --in TLC_LOG --out FINDINGS.ndjson [--bases K] [--variants none|orders|fills|all]
+//!                   [--obs OBS.ndjson]   (write observations of event ledgers for the TLC observation pass)
 
 use cgt_core::calculator::calculate;
 use cgt_core::{MatchRule, TaxReport, Transaction};
 use cgtv::ledger::*;
-use cgtv::rat::{Rat, tol, tol_proceeds};
+use cgtv::rat::{Rat, snap, tol, tol_proceeds};
+use cgtv::summary::{compare, rule_name, summarize};
 use cgtv::{Counters, Finding, guarded};
 use chrono::NaiveDate;
 use rust_decimal::Decimal;
@@ -17,18 +19,20 @@ use std::io::Write;
 struct Args {
     input: String,
     out: String,
+    obs: Option<String>,
     bases: usize,
     variants: String,
 }
 
 fn parse_args() -> Args {
-    let mut a = Args { input: String::new(), out: String::new(), bases: 2, variants: "none".into() };
+    let mut a = Args { input: String::new(), out: String::new(), obs: None, bases: 2, variants: "none".into() };
     let v: Vec<String> = std::env::args().collect();
     let mut i = 1;
     while i < v.len() {
         match v[i].as_str() {
             "--in" => { a.input = v[i + 1].clone(); i += 1; }
             "--out" => { a.out = v[i + 1].clone(); i += 1; }
+            "--obs" => { a.obs = Some(v[i + 1].clone()); i += 1; }
             "--bases" => { a.bases = v[i + 1].parse().unwrap_or(2); i += 1; }
             "--variants" => { a.variants = v[i + 1].clone(); i += 1; }
             _ => {}
@@ -38,14 +42,6 @@ fn parse_args() -> Args {
     a
 }
 
-fn rule_name(r: &MatchRule) -> &'static str {
-    match r {
-        MatchRule::SameDay => "SameDay",
-        MatchRule::BedAndBreakfast => "BedAndBreakfast",
-        MatchRule::Section104 => "Section104",
-    }
-}
-
 #[derive(Default, Clone)]
 struct Agg {
     q: Decimal,
@@ -53,8 +49,8 @@ struct Agg {
     gain: Decimal,
 }
 
-/// One accepted outcome of the specification for an input (there are two when
-/// the split-timing reading matters).
+/// All admissible outcomes of the specification for one input (one per split-timing reading
+/// and per admissible apportionment of cost events).
 struct Case<'a> {
     recs: Vec<&'a Rec>,
 }
@@ -80,18 +76,27 @@ impl<'a> Ctx<'a> {
     }
 }
 
+type Res = Result<Result<TaxReport, String>, String>;
+
 /// Compare one implementation result with one specification outcome.
-/// Returns findings (empty = conforms).
-fn judge(case_no: usize, rec: &Rec, base: NaiveDate, txs: &[Transaction], res: &Result<Result<TaxReport, String>, String>, cnt: &mut Counters) -> Vec<Finding> {
+fn judge(case_no: usize, rec: &Rec, base: NaiveDate, txs: &[Transaction], res: &Res, cnt: &mut Counters) -> Vec<Finding> {
     let mut cx = Ctx { case_no, rec, base, txs, findings: Vec::new() };
     match res {
         Err(p) => {
             cx.push("C15", "panic", format!("calculate panicked: {p}"), json!({}));
         }
         Ok(Err(msg)) => {
-            if rec.status == "ok" {
-                let kind = if msg.contains("S122") { "refused_capreturn" } else { "covered_refused" };
-                cx.push("C05", kind, format!("covered ledger refused: {msg}"), json!({"message": msg}));
+            let s122 = msg.contains("S122");
+            if rec.status == "refused" {
+                if !s122 {
+                    cx.push("C11", "refusal_not_s122", format!("unabsorbable capital return refused without citing s122: {msg}"), json!({"message": msg}));
+                }
+                cnt.inc("unabsorbable_refused");
+            } else if s122 && rec.has_capreturn() {
+                // the statement is one-directional: a return the pool could absorb may still be refused
+                cnt.inc("absorbable_return_refused_allowed");
+            } else if rec.status == "ok" {
+                cx.push("C05", "covered_refused", format!("covered ledger refused: {msg}"), json!({"message": msg}));
             } else {
                 // must name an uncovered security and the date of the first uncovered day
                 let d = rec.err_day().unwrap_or(1);
@@ -109,7 +114,14 @@ fn judge(case_no: usize, rec: &Rec, base: NaiveDate, txs: &[Transaction], res: &
             }
         }
         Ok(Ok(report)) => {
-            if rec.status != "ok" {
+            if rec.status == "refused" {
+                cx.push(
+                    "C11",
+                    "unabsorbable_accepted",
+                    "a capital return larger than everything spent on the security was accepted".to_string(),
+                    json!({}),
+                );
+            } else if rec.status != "ok" {
                 let d = rec.err_day().unwrap_or(1);
                 let date = date_of(rec, base, d).format("%Y-%m-%d").to_string();
                 cx.push(
@@ -200,6 +212,12 @@ fn judge_report(cx: &mut Ctx, report: &TaxReport, cnt: &mut Counters) {
             }
         }
         if legs.len() >= 2 { multi_rule = true; }
+        // ---- C04 on the implementation's own figures: legs' gains = net proceeds - legs' cost
+        let sum_gain: Decimal = disp.matches.iter().map(|m| m.gain_or_loss).sum();
+        let sum_cost: Decimal = disp.matches.iter().map(|m| m.allowable_cost).sum();
+        if (sum_gain - (disp.proceeds - sum_cost)).abs() > tol_proceeds() {
+            cx.push("C04", "gain_identity", format!("{sec} {date}: legs' gains {sum_gain} != net proceeds {} - cost {sum_cost}", disp.proceeds), json!({}));
+        }
         // ---- C01: rule, quantity, acquisition date (and cost/proceeds/gain) of every leg
         let mut bad = Vec::new();
         let mut ekeys: BTreeMap<(String, usize), &Leg> = BTreeMap::new();
@@ -210,7 +228,7 @@ fn judge_report(cx: &mut Ctx, report: &TaxReport, cnt: &mut Counters) {
                 Some(a) => {
                     if !l.q().close_to(a.q, tol()) {
                         bad.push(format!("leg {} acq-day#{}: qty {} expected {}", k.0, k.1, a.q, l.q().show()));
-                    } else {
+                    } else if !events {
                         if !l.cost().close_to(a.cost, tol()) {
                             bad.push(format!("leg {} acq-day#{}: cost {} expected {}", k.0, k.1, a.cost, l.cost().show()));
                         }
@@ -237,18 +255,13 @@ fn judge_report(cx: &mut Ctx, report: &TaxReport, cnt: &mut Counters) {
         if !bad.is_empty() {
             let exp_legs: Vec<String> = legs.iter().map(|l| format!("{}#{} q={} cost={}", l.rule(), l.a(), l.q().show(), l.cost().show())).collect();
             let obs_legs: Vec<String> = disp.matches.iter().map(|m| format!("{}@{:?} q={} cost={}", rule_name(&m.rule), m.acquisition_date, m.quantity, m.allowable_cost)).collect();
-            // with cost events only rule/quantity/date are C01's business; costs are judged by C03/C11
             let structural = bad.iter().any(|b| b.contains("qty") || b.contains("missing") || b.contains("unexpected"));
-            if structural || !events {
-                cx.push(
-                    "C01",
-                    if structural { "leg_identification" } else { "leg_value" },
-                    format!("{sec} {date}: {}", bad.join("; ")),
-                    json!({"expected": exp_legs, "observed": obs_legs}),
-                );
-            } else {
-                cx.push("C03", "leg_cost_with_events", format!("{sec} {date}: {}", bad.join("; ")), json!({"expected": exp_legs, "observed": obs_legs}));
-            }
+            cx.push(
+                "C01",
+                if structural { "leg_identification" } else { "leg_value" },
+                format!("{sec} {date}: {}", bad.join("; ")),
+                json!({"expected": exp_legs, "observed": obs_legs}),
+            );
         }
     }
     if multi_rule { cnt.inc("multi_leg_disposals"); }
@@ -278,11 +291,21 @@ fn judge_report(cx: &mut Ctx, report: &TaxReport, cnt: &mut Counters) {
         if oc < -tol() {
             cx.push("C11", "negative_holding_cost", format!("{sec}: holding cost {oc}"), json!({}));
         }
-        // conservation evaluated on the implementation's own figures
+        // conservation evaluated on the implementation's own figures; with cost events the
+        // expected total is purchases + effective net events, whatever the apportionment
         let total = obs_cost.get(&si).copied().unwrap_or(Decimal::ZERO) + oc;
         let spent = rec.total_spent(si);
-        if !events && !spent.close_to(total, tol()) {
-            cx.push("C03", "cost_not_conserved", format!("{sec}: legs + closing cost = {total}, expenditure {}", spent.show()), json!({"observed": total.to_string(), "expected": spent.show()}));
+        if !spent.close_to(total, tol()) {
+            let ev = rec.ledger[si].iter().any(|c| !c.ac().is_zero() || !c.cr().is_zero());
+            cx.push(
+                if ev { "C11" } else { "C03" },
+                if ev { "event_amount_not_conserved" } else { "cost_not_conserved" },
+                format!("{sec}: legs + closing cost = {total}, expenditure (purchases + effective events) {}", spent.show()),
+                json!({"observed": total.to_string(), "expected": spent.show()}),
+            );
+            if ev {
+                cx.push("C03", "cost_not_conserved", format!("{sec}: legs + closing cost = {total}, expenditure {}", spent.show()), json!({}));
+            }
         }
     }
     // ---- C07/C16 cheap structural checks on every report
@@ -292,28 +315,101 @@ fn judge_report(cx: &mut Ctx, report: &TaxReport, cnt: &mut Counters) {
     }
 }
 
-fn variants(kind: &str, rec: &Rec, bases: &[NaiveDate], case_no: usize) -> Vec<Render> {
+fn variants(kind: &str, bases: &[NaiveDate], case_no: usize) -> Vec<Render> {
     let mut v = Vec::new();
     for (bi, b) in bases.iter().enumerate() {
-        v.push(Render { base: *b, order: Order::Canonical, fills: Fills::One, lower: false });
+        v.push(Render { base: *b, order: Order::Canonical, fills: Fills::One, lower: false, dividends: false });
         if bi > 0 { continue; }
         let orders = matches!(kind, "orders" | "all");
         let fills = matches!(kind, "fills" | "all");
+        let mk = |order, fills, lower| Render { base: *b, order, fills, lower, dividends: false };
         if orders {
-            v.push(Render { base: *b, order: Order::Reversed, fills: Fills::One, lower: false });
-            v.push(Render { base: *b, order: Order::SellsFirst, fills: Fills::One, lower: false });
-            v.push(Render { base: *b, order: Order::ActionsFirst, fills: Fills::One, lower: false });
-            v.push(Render { base: *b, order: Order::Shuffled(case_no as u64), fills: Fills::One, lower: true });
+            v.push(mk(Order::Reversed, Fills::One, false));
+            v.push(mk(Order::SellsFirst, Fills::One, false));
+            v.push(mk(Order::ActionsFirst, Fills::One, false));
+            v.push(mk(Order::Shuffled(case_no as u64), Fills::One, true));
+            v.push(mk(Order::Shuffled(case_no as u64 + 1000003), Fills::One, false));
         }
         if fills {
-            v.push(Render { base: *b, order: Order::Canonical, fills: Fills::Halves, lower: false });
-            v.push(Render { base: *b, order: Order::Shuffled(case_no as u64 + 7), fills: Fills::Halves, lower: false });
-            v.push(Render { base: *b, order: Order::Canonical, fills: Fills::HalvesSeparated, lower: false });
-            v.push(Render { base: *b, order: Order::Reversed, fills: Fills::HalvesSeparated, lower: false });
+            v.push(mk(Order::Canonical, Fills::Halves, false));
+            v.push(mk(Order::Shuffled(case_no as u64 + 7), Fills::Halves, false));
+            v.push(mk(Order::Canonical, Fills::HalvesSeparated, false));
+            v.push(mk(Order::Reversed, Fills::HalvesSeparated, false));
+            v.push(mk(Order::Canonical, Fills::BuysSeparated, false));
+            v.push(mk(Order::Shuffled(case_no as u64 + 13), Fills::BuysSeparated, true));
         }
-        let _ = rec;
+        if matches!(kind, "dividends" | "all") {
+            v.push(Render { base: *b, order: Order::Canonical, fills: Fills::One, lower: false, dividends: true });
+        }
     }
     v
+}
+
+/// Observation of one execution for the TLC observation pass (Obs_Cgt.tla).
+fn observation(case: u64, rec: &Rec, base: NaiveDate, res: &Res, events: &[cgt_core::verif::Event]) -> Option<serde_json::Value> {
+    const MAXDEN: i128 = 100_000;
+    let n = rec.n();
+    let date_idx: HashMap<NaiveDate, usize> = (1..=n).map(|d| (date_of(rec, base, d), d)).collect();
+    let r2 = |r: Rat| json!([r.n as i64, r.d as i64]);
+    let mut dist = vec![vec![vec![Rat::ZERO; n]; n]; rec.secs.len()];
+    let mut dec_dist: Vec<Vec<Vec<Decimal>>> = vec![vec![vec![Decimal::ZERO; n]; n]; rec.secs.len()];
+    for e in events {
+        if e.kind != "CostEvent" { continue; }
+        let si = rec.sec_index(&e.ticker)?;
+        let ed = *date_idx.get(&e.date)?;
+        for (ld, delta) in &e.lots {
+            let a = *date_idx.get(ld)?;
+            dec_dist[si][ed - 1][a - 1] += *delta;
+        }
+    }
+    for si in 0..rec.secs.len() {
+        for e in 0..n {
+            for a in 0..n {
+                dist[si][e][a] = snap(dec_dist[si][e][a], MAXDEN)?;
+            }
+        }
+    }
+    let (status, legs, pool) = match res {
+        Ok(Ok(report)) => {
+            let mut agg: BTreeMap<(String, usize, String, usize), (Decimal, Decimal)> = BTreeMap::new();
+            for y in &report.tax_years {
+                for d in &y.disposals {
+                    let di = *date_idx.get(&d.date)?;
+                    for m in &d.matches {
+                        let a = match (&m.rule, m.acquisition_date) {
+                            (MatchRule::Section104, _) => 0,
+                            (_, Some(ad)) => *date_idx.get(&ad)?,
+                            _ => return None,
+                        };
+                        let e = agg.entry((d.ticker.clone(), di, rule_name(&m.rule).to_string(), a)).or_default();
+                        e.0 += m.quantity;
+                        e.1 += m.allowable_cost;
+                    }
+                }
+            }
+            let mut legs = Vec::new();
+            for ((s, d, r, a), (q, c)) in agg {
+                legs.push(json!([s, d, r, a, r2(snap(q, MAXDEN)?), r2(snap(c, MAXDEN)?)]));
+            }
+            let mut pool = Vec::new();
+            for sec in &rec.secs {
+                let h = report.holdings.iter().find(|h| &h.ticker == sec);
+                let (q, c) = h.map(|h| (h.quantity, h.total_cost)).unwrap_or((Decimal::ZERO, Decimal::ZERO));
+                pool.push(json!([r2(snap(q, MAXDEN)?), r2(snap(c, MAXDEN)?)]));
+            }
+            ("ok", legs, pool)
+        }
+        Ok(Err(msg)) => (if msg.contains("S122") { "refused" } else { "error" }, vec![], vec![]),
+        Err(_) => return None,
+    };
+    let ledger: Vec<Vec<serde_json::Value>> = rec
+        .ledger
+        .iter()
+        .map(|s| s.iter().map(|c| json!([r2(c.0), r2(c.1), r2(c.2), r2(c.3), r2(c.4), r2(c.5), r2(c.6), r2(c.7), r2(c.8), r2(c.9)])).collect())
+        .collect();
+    let dist_j: Vec<Vec<Vec<serde_json::Value>>> =
+        dist.iter().map(|s| s.iter().map(|e| e.iter().map(|x| r2(*x)).collect()).collect()).collect();
+    Some(json!({"case": case, "timing": rec.timing, "ledger": ledger, "dist": dist_j, "status": status, "legs": legs, "pool": pool}))
 }
 
 fn main() {
@@ -331,9 +427,9 @@ fn main() {
         }
     });
     drop(lines);
-    // group the outcomes of one input (one per split-timing reading)
+    // group the admissible outcomes of one input
     let mut groups: BTreeMap<String, Vec<usize>> = BTreeMap::new();
-    let needs_group = recs.iter().any(|r| r.timing != "end");
+    let needs_group = recs.iter().any(|r| r.timing != "end" || r.has_events());
     let cases: Vec<Case> = if needs_group {
         for (i, r) in recs.iter().enumerate() {
             groups.entry(r.input_key()).or_default().push(i);
@@ -344,22 +440,30 @@ fn main() {
     };
     let bases: Vec<NaiveDate> = base_dates().into_iter().take(args.bases.max(1)).collect();
     let config = full_config();
+    let want_obs = args.obs.is_some();
     let results = cgtv::par::par_map(&cases, cgtv::par::threads(), |case_no, case| {
         let mut cnt = Counters::default();
         let mut findings: Vec<Finding> = Vec::new();
+        let mut observations: Vec<String> = Vec::new();
         let rec0 = case.recs[0];
         cnt.inc("cases");
-        if rec0.status == "ok" { cnt.inc("covered"); } else { cnt.inc("uncovered"); }
+        match rec0.status.as_str() {
+            "ok" => cnt.inc("covered"),
+            "refused" => cnt.inc("unabsorbable"),
+            _ => cnt.inc("uncovered"),
+        }
         if rec0.has_splits() { cnt.inc("with_splits"); }
         if rec0.has_events() { cnt.inc("with_events"); }
         if rec0.legs.iter().any(|l| l.rule() == "BedAndBreakfast") { cnt.inc("with_bnb"); }
-        if case.recs.len() > 1 { cnt.inc("timing_ambiguous"); }
-        let mut first_summary: Option<String> = None;
-        for r in variants(&args.variants, rec0, &bases, case_no) {
+        if case.recs.iter().any(|r| r.timing != rec0.timing) { cnt.inc("timing_ambiguous"); }
+        let mut canon: Option<(String, Option<cgtv::summary::RepSum>)> = None;
+        for r in variants(&args.variants, &bases, case_no) {
             let txs = render(rec0, &r);
             let cfg = &config;
             let t2 = txs.clone();
-            let res = guarded(move || calculate(&t2, None, None, cfg).map_err(|e| e.to_string()));
+            cgt_core::verif::start();
+            let res: Res = guarded(move || calculate(&t2, None, None, cfg).map_err(|e| e.to_string()));
+            let events = cgt_core::verif::finish();
             cnt.inc("executions");
             // accepted if it conforms to any admissible outcome
             let mut best: Option<Vec<Finding>> = None;
@@ -369,43 +473,84 @@ fn main() {
                 if best.as_ref().map(|b| f.len() < b.len()).unwrap_or(true) { best = Some(f); }
             }
             let mut f = best.unwrap_or_default();
-            // C06/C09: every rendering of one ledger must give the same outcome (status level here;
-            // value level follows from comparing each with the same specification outcome)
-            let summ = match &res { Ok(Ok(_)) => "ok".to_string(), Ok(Err(_)) => "err".to_string(), Err(_) => "panic".to_string() };
-            if r.base == bases[0] {
-                match &first_summary {
-                    None => first_summary = Some(summ),
-                    Some(s0) => if *s0 != summ {
-                        f.push(Finding { prop: "C06".into(), kind: "variant_status".into(), case: case_no,
-                            detail: format!("canonical rendering gives {s0}, this rendering gives {summ}"),
-                            input: to_dsl(&txs), data: json!({}) });
+            let plain = r.order == Order::Canonical && r.fills == Fills::One && !r.dividends;
+            // observation for the TLC pass: canonical rendering of event ledgers, one per timing reading
+            if want_obs && plain && r.base == bases[0] && rec0.has_events() && rec0.status != "refused" {
+                let mut seen = Vec::new();
+                for rec in &case.recs {
+                    if seen.contains(&rec.timing) { continue; }
+                    seen.push(rec.timing.clone());
+                    match observation(case_no as u64, rec, r.base, &res, &events) {
+                        Some(o) => observations.push(o.to_string()),
+                        None => cnt.inc("observation_not_representable"),
                     }
                 }
             }
-            // a deviation seen only under a non-canonical rendering is (also) an order/fill dependence
-            if !f.is_empty() && (r.order != Order::Canonical || r.fills != Fills::One) {
+            // C06/C09/C11: every rendering of one ledger must give the same outcome as the
+            // canonical rendering (implementation vs implementation, full precision)
+            if r.base == bases[0] {
+                let status = match &res { Ok(Ok(_)) => "ok".to_string(), Ok(Err(_)) => "err".to_string(), Err(_) => "panic".to_string() };
+                let sum = match &res { Ok(Ok(rep)) => Some(summarize(rep, Some(SEP_TICKER))), _ => None };
+                match &canon {
+                    None => canon = Some((status, sum)),
+                    Some((s0, sum0)) => {
+                        cnt.inc("variant_comparisons");
+                        let prop = if r.dividends { "C11" } else { "C06" };
+                        if *s0 != status {
+                            f.push(Finding { prop: prop.into(), kind: "variant_status".into(), case: case_no,
+                                detail: format!("canonical rendering gives {s0}, rendering {:?}/{:?} gives {status}", r.order, r.fills),
+                                input: to_dsl(&txs), data: json!({}) });
+                        } else if let (Some(a), Some(b)) = (sum0, &sum) {
+                            let d = compare(a, b, tol_proceeds(), !r.dividends);
+                            if !d.deep.is_empty() {
+                                f.push(Finding { prop: prop.into(), kind: if r.dividends { "dividend_changes_disposals".into() } else { "variant_value".into() }, case: case_no,
+                                    detail: format!("rendering {:?}/{:?}{} differs from canonical: {}", r.order, r.fills, if r.dividends { "+dividends" } else { "" }, d.deep.join("; ")),
+                                    input: to_dsl(&txs), data: json!({"diffs": d.deep}) });
+                            } else if !d.shallow.is_empty() {
+                                f.push(Finding { prop: prop.into(), kind: "leg_gain_apportionment".into(), case: case_no,
+                                    detail: format!("rendering {:?}/{:?} splits a disposal's gain over its legs differently: {}", r.order, r.fills, d.shallow.join("; ")),
+                                    input: to_dsl(&txs), data: json!({"diffs": d.shallow, "fills": format!("{:?}", r.fills)}) });
+                            }
+                        }
+                    }
+                }
+            }
+            if !f.is_empty() && !plain {
                 for x in f.iter_mut() { x.data["variant"] = json!(format!("{:?}/{:?}", r.order, r.fills)); }
             }
             findings.extend(f);
             if findings.len() > 50 { break; }
         }
-        (findings, cnt)
+        (findings, cnt, observations)
     });
     let mut cnt = Counters::default();
     let mut out = std::io::BufWriter::new(std::fs::File::create(&args.out).unwrap_or_else(|e| {
         eprintln!("cannot write {}: {e}", args.out);
         std::process::exit(2);
     }));
+    let mut obs_out = args.obs.as_ref().map(|p| {
+        std::io::BufWriter::new(std::fs::File::create(p).unwrap_or_else(|e| {
+            eprintln!("cannot write {p}: {e}");
+            std::process::exit(2);
+        }))
+    });
     let mut nf = 0usize;
-    for (fs, c) in &results {
+    let mut nobs = 0usize;
+    for (fs, c, obs) in &results {
         cnt.merge(c);
         for f in fs {
             nf += 1;
             let _ = writeln!(out, "{}", serde_json::to_string(f).unwrap_or_default());
         }
+        if let Some(o) = obs_out.as_mut() {
+            for l in obs {
+                nobs += 1;
+                let _ = writeln!(o, "{l}");
+            }
+        }
     }
     let sample: Vec<String> = cases.iter().step_by((cases.len() / 3).max(1)).take(3).map(|c| {
-        to_dsl(&render(c.recs[0], &Render { base: bases[0], order: Order::Canonical, fills: Fills::One, lower: false }))
+        to_dsl(&render(c.recs[0], &Render { base: bases[0], order: Order::Canonical, fills: Fills::One, lower: false, dividends: false }))
     }).collect();
-    println!("{}", json!({"records": recs.len(), "findings": nf, "counters": cnt.map, "samples": sample}));
+    println!("{}", json!({"records": recs.len(), "cases": cases.len(), "findings": nf, "observations": nobs, "counters": cnt.map, "samples": sample}));
 }
